@@ -23,7 +23,7 @@ PROPS = {
     },
     'C04': {
         'modules': ['C04', 'C04Progress'],
-        'families': [('tp', 2000, 60000), ('ep:close', 500, 10000), ('ep:backpressure', 800, 20000)],
+        'families': [('ep:slotrace', 1, 1), ('tp', 2000, 60000), ('ep:close', 500, 10000), ('ep:backpressure', 800, 20000)],
         'rule': 'two real endpoints (client and server) joined by two in-memory pipes: adaptive random schedules of {write data, ping, pong, flush, read, '
                 'close} on both sides x delivery granularity (1 byte .. all) x write-side WouldBlock windows x flush blocks, incl. simultaneous close and '
                 'close with data or pings in flight; then a fair drain phase (both flush and read, drop the transport on ConnectionClosed)',
@@ -70,7 +70,7 @@ PROPS = {
         'level_note': 'Partial for key unpredictability.',
     },
     'C13': {
-        'families': [('corpus:defects', 0, 0), ('ep:backpressure', 2500, 80000), ('ep:close', 800, 20000), ('tp', 150, 4000)],
+        'families': [('ep:slotrace', 1, 1), ('corpus:defects', 0, 0), ('ep:backpressure', 2500, 80000), ('ep:close', 800, 20000), ('tp', 150, 4000)],
         'rule': 'histories x WouldBlock windows on write/flush x max_write_buffer_size from just above the largest frame to unlimited x write_buffer_size',
         'assumptions': ['max_write_buffer_size holds the largest single frame of the history when empty (property quantifier; hypothesis hfit)'],
         'trusted_base': [],
@@ -161,7 +161,7 @@ PROPS = {
                       'response head; bytes beyond the head are handed to the socket) under the assumption hstable about httparse.',
     },
     'C03': {
-        'families': [('corpus:defects', 0, 0), ('ep:exhaustive', 3, 4), ('ep:close', 2500, 80000), ('ep:mixed', 800, 20000), ('ep:hostile', 500, 20000)],
+        'families': [('ep:slotrace', 1, 1), ('corpus:defects', 0, 0), ('ep:exhaustive', 3, 4), ('ep:close', 2500, 80000), ('ep:mixed', 800, 20000), ('ep:hostile', 500, 20000)],
         'rule': 'interleavings of user calls (read, write of each kind, flush, close) with peer frames (data, ping, close, garbage after '
                 'close), transport EOF/reset at any point, WouldBlock on any write or flush, both roles; corpus = the witnesses of the '
                 'defects found while modelling (D1-D7)',
@@ -178,7 +178,7 @@ PROPS = {
                       'evaluates the seven sub-claims on every implementation trace.',
     },
     'C10': {
-        'families': [('corpus:defects', 0, 0), ('ep:backpressure', 2000, 60000), ('ep:sizes', 300, 5000), ('ep:mixed', 500, 20000)],
+        'families': [('ep:slotrace', 1, 1), ('corpus:defects', 0, 0), ('ep:backpressure', 2000, 60000), ('ep:sizes', 300, 5000), ('ep:mixed', 500, 20000)],
         'rule': 'message sequences x per-call transport write outcomes (accept k of n for many k, WouldBlock, repeated) x flush outcomes '
                 'x write_buffer_size',
         'assumptions': [],
@@ -208,7 +208,7 @@ PROPS = {
     },
     'C11': {
         'modules': ['C11', 'C11Global'],
-        'families': [('corpus:defects', 0, 0), ('ep:ping', 2000, 60000), ('ep:backpressure', 800, 20000)],
+        'families': [('ep:slotrace', 1, 1), ('corpus:defects', 0, 0), ('ep:ping', 2000, 60000), ('ep:backpressure', 800, 20000)],
         'rule': 'sequences of pings (payload 0..125) interleaved with data, user pongs and closes, read/write/flush call patterns, '
                 'WouldBlock on any write or flush, small write buffers',
         'assumptions': ['max_write_buffer_size holds the largest single frame (property quantifier)'],
@@ -223,7 +223,7 @@ PROPS = {
     },
     'C12': {
         'modules': ['C12', 'C12Global'],
-        'families': [('corpus:defects', 0, 0), ('ep:close', 2000, 60000), ('ep:backpressure', 1500, 40000), ('pure:closecode', 1, 1)],
+        'families': [('ep:slotrace', 1, 1), ('corpus:defects', 0, 0), ('ep:close', 2000, 60000), ('ep:backpressure', 1500, 40000), ('pure:closecode', 1, 1)],
         'rule': 'close frames with every class of status code (all 65536 through the conversion functions), reasons empty..123 bytes, '
                 'arriving in every connection state, with and without a pending pong',
         'assumptions': [],
@@ -236,7 +236,7 @@ PROPS = {
     },
     'C14': {
         'modules': ['C14', 'C14Global'],
-        'families': [('corpus:defects', 0, 0), ('ep:backpressure', 2000, 60000), ('ep:mixed', 500, 10000)],
+        'families': [('ep:slotrace', 1, 1), ('corpus:defects', 0, 0), ('ep:backpressure', 2000, 60000), ('ep:mixed', 500, 10000)],
         'rule': '(write_buffer_size, max_write_buffer_size) pairs incl. 0 and adjacent values, message size sequences, transport refusal '
                 'windows, ping floods while blocked',
         'assumptions': ['max_write_buffer_size holds the largest single frame used (property quantifier)'],
